@@ -33,12 +33,12 @@ def mk_world(base, seed, idx, tag):
     return r, sim, w
 
 
-def ai_commit(w, r, paths, region="bottom", n_edits=(1, 2), who=None):
+def ai_commit(w, r, paths, region="bottom", n_edits=(1, 2), who=None, kinds=None):
     """a commit containing AI (and sometimes human) edits in `paths`"""
     for _ in range(r.range(*n_edits)):
-        w.op_edit(actor=who or r.pick(SESSIONS + ["H"]), path=r.pick(paths), region=region)
+        w.op_edit(actor=who or r.pick(SESSIONS + ["H"]), path=r.pick(paths), region=region, kinds=kinds)
     if not any(t[0] == "edit" and t[1] in SESSIONS for t in w.trace[-3:]):
-        w.op_edit(actor=r.pick(SESSIONS), path=r.pick(paths), region=region)
+        w.op_edit(actor=r.pick(SESSIONS), path=r.pick(paths), region=region, kinds=kinds)
     return w.op_commit()
 
 
@@ -59,8 +59,10 @@ def scenario(args):
         if tmpl in ("amend", "amend_msg"):
             ai_commit(w, r, shared)
             if tmpl == "amend":
-                w.op_edit(actor=r.pick(SESSIONS + ["H"]), path=r.pick(shared + ["c d.py"]),
-                          region=r.pick(["top", "bottom"]))
+                who = r.pick(SESSIONS + ["H"])
+                # a person modifying an earlier AI line in place before amending is known class K2
+                w.op_edit(actor=who, path=r.pick(shared + ["c d.py"]), region=r.pick(["top", "bottom"]),
+                          kinds=("ins",) if who == "H" else None)
                 w.realgit("add", "-A")
                 w.git("commit", "-q", "--amend", "--no-edit")
             else:
@@ -72,7 +74,9 @@ def scenario(args):
             ncom = r.range(1, 3) if "range" in tmpl or tmpl.startswith("rebase") else 1
             conflict = "conflict" in tmpl
             for k in range(ncom):
-                ai_commit(w, r, ["c d.py"] if (k == 0 and not conflict) else shared, region="bottom")
+                # in-place modification of another session's fresh line inside a rewritten commit is known class K3
+                ai_commit(w, r, ["c d.py"] if (k == 0 and not conflict) else shared, region="bottom",
+                          kinds=("ins", "del", "rep"))
             w.git("switch", "-q", "main")
             w.cur = "main"
             for _ in range(r.range(1, 2)):
